@@ -14,14 +14,14 @@ EXTENDS Integers, Sequences, TLC
 \* is implementation defined; the implementation takes Unicode lower-case / other letters as small letters, upper-case
 \* letters as capital letters and the mathematical operator blocks as graphic characters)
 Small == {"a", "b", "c", "d", "e", "f", "g", "h", "i", "j", "k", "l", "m", "n", "o", "p", "q", "r", "s", "t", "u", "v", "w", "x", "y", "z",
-          "é", "ï", "日", "本"}
+          "é", "ï", "ā", "ő", "日", "本"}
 Capital == {"A", "B", "C", "D", "E", "F", "G", "H", "I", "J", "K", "L", "M", "N", "O", "P", "Q", "R", "S", "T", "U", "V", "W", "X", "Y", "Z", "Ω"}
 Digit == {"0", "1", "2", "3", "4", "5", "6", "7", "8", "9"}
 Alnum == Small \cup Capital \cup Digit \cup {"_"}
 GraphicSym == {"#", "$", "&", "*", "+", "-", ".", "/", ":", "<", "=", ">", "?", "@", "^", "~", "∅", "≤", "∀", "⨁", "⊥"}   \* the backslash is one more in graphic tokens
 GraphicTok == GraphicSym \cup {"\\"}
 Solo == {"!", "(", ")", ",", ";", "[", "]", "{", "}", "|", "%"}
-Layout == {" ", "\n", "\t", " ", "　"}              \* (the last two: U+00A0 and U+3000 - the implementation takes every Unicode space for layout)
+Layout == {" ", "\n", "\t", " ", " ", "　"}              \* (the last three: U+00A0, U+2003 and U+3000 - the implementation takes every Unicode space for layout)
 Meta == {"\\", "'", "\"", "`"}
 SymbolicControl == {"a", "b", "r", "f", "t", "n", "v"}
 Octal == {"0", "1", "2", "3", "4", "5", "6", "7"}
